@@ -30,16 +30,28 @@ type stubEncoder struct{ fn func(v any) error }
 func (e stubEncoder) Encode(v any) error { return e.fn(v) }
 
 type recWriter struct {
+	// h is what goes on the wire: the live header map until the response is
+	// committed (first WriteHeader), a frozen copy of it afterwards, as net/http does
 	h        http.Header
+	live     http.Header
 	status   int
 	nHeaders int
 	encoded  []any
 }
 
-func newRecWriter() *recWriter                    { return &recWriter{h: http.Header{}} }
-func (w *recWriter) Header() http.Header         { return w.h }
+func newRecWriter() *recWriter {
+	h := http.Header{}
+	return &recWriter{h: h, live: h}
+}
+func (w *recWriter) Header() http.Header         { return w.live }
 func (w *recWriter) Write(b []byte) (int, error) { return len(b), nil }
-func (w *recWriter) WriteHeader(s int)           { w.status = s; w.nHeaders++ }
+func (w *recWriter) WriteHeader(s int) {
+	if w.nHeaders == 0 {
+		w.h = w.live.Clone()
+	}
+	w.status = s
+	w.nHeaders++
+}
 
 // recEncoder returns the encoder factory handed to generated servers: it
 // records every value the generated code encodes on the writer.
